@@ -126,7 +126,7 @@ def main():
                 "and on y, attribute vs attribute across variables, membership of x in y.items) and seeded random subsets of the "
                 "6-atom 'logic6' and the 'access' vocabulary (attribute chains x.ref.a, object-valued comparisons, x != y), each "
                 "with the reference Answers for every assignment of {empty, singleton, complete} domains to x and y and every "
-                "selection (x | y | x,y) that the statement settles; EQLFlat.tla adds 184 conditions over f = flatten(y.items), EQLTerms.tla 340 over indexing, method calls and a nested query used as a variable; every case is built with the public API (entity / set_of, "
+                "selection (x | y | x,y) that the statement settles; EQLFlat.tla adds 184 conditions over f = flatten(y.items), EQLTerms.tla 608 over indexing, method calls, a nested query used as a variable and bare truth-valued attributes; every case is built with the public API (entity / set_of, "
                 "in_ / contains alternating) and evaluated (every fifth condition on a world whose objects are falsy Python objects); result rows are compared as sets. Non-trivial = a condition with at "
                 "least one connective and a case with a non-empty expected set; distinct by (condition, domains, selection).")
     # layer I => R on the model (the pipeline returns exactly the satisfying rows), reference sanity, non-vacuity
@@ -161,8 +161,8 @@ def main():
         cases.append({"cond": j["cond"], "cases": cs, "variant": i % 6, "family": "flat", "reeval": False, "falsy": i % 5 == 4})
     # derived terms (EQLTerms.tla): indexing, method calls with and without arguments, a nested query used as a variable
     terms = [j for j in ctx.run_tlc("EQLTerms", "EQLTerms_gen.cfg", expect="ok").json_lines() if isinstance(j, dict) and "cond" in j]
-    if len(terms) != 340:
-        raise MachineryError(f"EQLTerms_gen: expected 340 conditions, got {len(terms)}")
+    if len(terms) != 608:
+        raise MachineryError(f"EQLTerms_gen: expected 608 conditions, got {len(terms)}")
     for i, j in enumerate(terms):
         cs = [{"dom": {"x": c["dx"], "y": c["dy"], "__terms__": True}, "sel": c["sel"], "exp": c["exp"]} for c in j["cases"]]
         if not thorough:
